@@ -322,7 +322,8 @@ ByteArray decodeBase64(const char* src0, int n)
 			i = 0;
 		}
 	}
-	result.resize(int(dest - result.data()) - e);
+	int written = int(dest - result.data()) - e;
+	result.resize(written > 0 ? written : 0);
 	return result;
 }
 
